@@ -13,7 +13,8 @@ RULE = (
     "complete product model topology x option set x design point x coupled linear solver; each state builds the real model in fwd and in rev "
     "mode, converges it tightly and compares Problem.compute_totals of every function of interest w.r.t. every design variable and flight "
     "condition (a) with Richardson differences of the converged analysis, (b) fwd against rev entry by entry, (c) against the DirectSolver "
-    "result; non-trivial = distinct states with a non-zero reference Jacobian"
+    "result (solvers: a DirectSolver / LinearBlockGS / Krylov attached by the user, or the library's own solver objects left untouched, "
+    "incl. the documented multipoint pattern with driver-registered responses at transport-aircraft scale); non-trivial = distinct states with a non-zero reference Jacobian"
 )
 ASSUMPTIONS = [
     "finite alphabets for topologies, option sets and two design points; nx=2(3), half ny 3-4, <=2 surfaces, <=2 flight points",
